@@ -386,6 +386,18 @@ class FuncVisitor(ast.NodeVisitor):
     # ---- type & root inference (flow-insensitive) ------------------------------------------------
     def run(self) -> None:
         fn = self.fi.node
+        # a memoised function (functools.lru_cache / cache) that hands out a MUTABLE object shares that object between
+        # all callers of the process: state carried across calls, like a module-level container
+        decos = [ast.unparse(d.func if isinstance(d, ast.Call) else d).split(".")[-1] for d in fn.decorator_list]
+        if any(d in ("lru_cache", "cache", "cached_property") for d in decos):
+            local_ctor: set[str] = set()
+            for n in ast.walk(fn):
+                if isinstance(n, ast.Assign) and len(n.targets) == 1 and isinstance(n.targets[0], ast.Name) and _mutable_expr(n.value):
+                    local_ctor.add(n.targets[0].id)
+            for n in ast.walk(fn):
+                if isinstance(n, ast.Return) and n.value is not None and (_mutable_expr(n.value) or (isinstance(n.value, ast.Name) and n.value.id in local_ctor)):
+                    self.fi.effects.append(Effect("global_write", f"@{[d for d in decos if d in ('lru_cache', 'cache', 'cached_property')][0]} function returns a mutable object ({ast.unparse(n.value)[:40]}): shared between calls of the process", n.lineno))
+                    break
         # parameter annotations
         for a in fn.args.posonlyargs + fn.args.args + fn.args.kwonlyargs:
             if a.annotation is not None:
@@ -866,6 +878,19 @@ def _deterministic_repr(pkg: Package, ci: ClassInfo) -> bool:
     for c in pkg.mro(ci):
         if c.is_dataclass or c.is_enum or c.has_repr or c.is_exception:
             return True
+    return False
+
+
+def _mutable_expr(e: ast.AST) -> bool:
+    """an expression that builds a fresh mutable object: a container display / comprehension, or a call of a
+    capitalised name (a class) other than the immutable built-ins"""
+    if isinstance(e, (ast.List, ast.Dict, ast.Set, ast.ListComp, ast.DictComp, ast.SetComp)):
+        return True
+    if isinstance(e, ast.Call):
+        f = ast.unparse(e.func).split(".")[-1]
+        if f in ("list", "dict", "set", "bytearray", "defaultdict", "OrderedDict", "deque", "Counter"):
+            return True
+        return f[:1].isupper() and f not in ("Path", "PurePath", "Decimal", "Fraction")
     return False
 
 
